@@ -10,6 +10,7 @@ import (
 	"fmt"
 	"go/constant"
 	"go/token"
+	"go/types"
 	"math"
 	"strings"
 
@@ -38,10 +39,11 @@ type absPtr struct {
 }
 
 type evaluator struct {
-	leaf   leafX
-	inline func(callee *ssa.Function) bool // which library callees may be evaluated inline (loop-free bodies only)
-	steps  int
-	fail   string // first reason an evaluation failed
+	leaf     leafX
+	inline   func(callee *ssa.Function) bool // which library callees may be evaluated inline (loop-free bodies only)
+	steps    int
+	fail     string // first reason an evaluation failed
+	panicked bool   // an inlined callee ended in a panic
 }
 
 func (fr *evalFrame) resolve(v ssa.Value) ssa.Value {
@@ -176,7 +178,56 @@ func (ev *evaluator) eval(fr *evalFrame, v ssa.Value, depth int) (interface{}, b
 			}
 		}
 		return nil, false
+	case *ssa.Extract:
+		// the value / ok of a comma-ok lookup in a literal table
+		if lk, isL := x.Tuple.(*ssa.Lookup); isL && lk.CommaOk {
+			if tv, found, ok := ev.tableLookup(fr, lk, depth); ok {
+				if x.Index == 1 {
+					return found, true
+				}
+				if found {
+					return tvalScalar(tv)
+				}
+				return zeroOf(lk.X.Type().Underlying().(*types.Map).Elem())
+			}
+		}
+		return nil, false
+	case *ssa.Lookup:
+		if !x.CommaOk {
+			if tv, found, ok := ev.tableLookup(fr, x, depth); ok {
+				if found {
+					return tvalScalar(tv)
+				}
+				if mt, isM := x.X.Type().Underlying().(*types.Map); isM {
+					return zeroOf(mt.Elem())
+				}
+			}
+		}
+		return nil, false
 	case *ssa.UnOp:
+		if x.Op == token.MUL {
+			// a load from a literal package-level table (never written after init: C09 R09.1)
+			switch addr := x.X.(type) {
+			case *ssa.Global:
+				if tv := globalTVal(addr); tv != nil {
+					return tvalScalar(tv)
+				}
+				return nil, false
+			case *ssa.IndexAddr:
+				if ld, isLd := addr.X.(*ssa.UnOp); isLd && ld.Op == token.MUL {
+					if g, isG := ld.X.(*ssa.Global); isG {
+						tv := globalTVal(g)
+						iv, ok := ev.eval(fr, addr.Index, depth+1)
+						i, isI := iv.(int64)
+						if tv == nil || tv.Kind != "list" || !ok || !isI || i < 0 || int(i) >= len(tv.L) {
+							return nil, false
+						}
+						return tvalScalar(tv.L[i])
+					}
+				}
+				return nil, false
+			}
+		}
 		a, ok := ev.eval(fr, x.X, depth+1)
 		if !ok {
 			return nil, false
@@ -197,7 +248,10 @@ func (ev *evaluator) eval(fr *evalFrame, v ssa.Value, depth int) (interface{}, b
 		return nil, false
 	case *ssa.BinOp:
 		if x.Op == token.EQL || x.Op == token.NEQ {
-			isNil := func(v ssa.Value) bool { k, ok := v.(*ssa.Const); return ok && k.Value == nil && !isStringType(k.Type()) }
+			isNil := func(v ssa.Value) bool {
+				k, ok := v.(*ssa.Const)
+				return ok && k.Value == nil && !isStringType(k.Type())
+			}
 			for _, pr := range [][2]ssa.Value{{x.X, x.Y}, {x.Y, x.X}} {
 				if isNil(pr[0]) {
 					o, ok := ev.eval(fr, pr[1], depth+1)
@@ -363,6 +417,9 @@ func (ev *evaluator) eval(fr *evalFrame, v ssa.Value, depth int) (interface{}, b
 			if outcome == "return" && len(res) == 1 {
 				return res[0], true
 			}
+			if outcome == "panic" {
+				ev.panicked = true
+			}
 			return nil, false
 		}
 	}
@@ -401,6 +458,9 @@ func (ev *evaluator) runFrame(fr *evalFrame, start *ssa.BasicBlock, stop func(b 
 			var out []interface{}
 			for _, res := range last.Results {
 				v, ok := ev.eval(fr, res, 0)
+				if !ok && ev.panicked {
+					return nil, "panic"
+				}
 				if !ok {
 					ev.setFail("returned value not evaluable in " + fname(fr.fn) + ": " + res.String())
 					return nil, "fail"
@@ -413,6 +473,9 @@ func (ev *evaluator) runFrame(fr *evalFrame, start *ssa.BasicBlock, stop func(b 
 		case *ssa.If:
 			v, ok := ev.eval(fr, last.Cond, 0)
 			t, isB := v.(bool)
+			if !ok && ev.panicked {
+				return nil, "panic"
+			}
 			if !ok || !isB {
 				ev.setFail("branch condition not evaluable in " + fname(fr.fn) + ": " + last.Cond.String())
 				return nil, "fail"
@@ -437,6 +500,67 @@ func (ev *evaluator) setFail(msg string) {
 	if ev.fail == "" {
 		ev.fail = msg
 	}
+}
+
+func globalTVal(g *ssa.Global) *TVal {
+	c := ctxByProg[g.Pkg.Prog]
+	if c == nil {
+		return nil
+	}
+	tv, err := c.tables.Var(g.Pkg.Pkg.Name(), g.Name())
+	if err != nil {
+		return nil
+	}
+	return tv
+}
+
+func tvalScalar(tv *TVal) (interface{}, bool) {
+	switch tv.Kind {
+	case "int":
+		return tv.I, true
+	case "str":
+		return tv.S, true
+	case "float":
+		return tv.F, true
+	case "bool":
+		return tv.B, true
+	}
+	return nil, false
+}
+
+func zeroOf(t types.Type) (interface{}, bool) {
+	switch {
+	case isIntType(t):
+		return int64(0), true
+	case isFloatType(t):
+		return float64(0), true
+	case isStringType(t):
+		return "", true
+	}
+	if b, ok := t.Underlying().(*types.Basic); ok && b.Kind() == types.Bool {
+		return false, true
+	}
+	return nil, false
+}
+
+// tableLookup folds m[key] for a literal package-level map with string or integer keys.
+func (ev *evaluator) tableLookup(fr *evalFrame, lk *ssa.Lookup, depth int) (tv *TVal, found bool, ok bool) {
+	ld, isLd := lk.X.(*ssa.UnOp)
+	if !isLd || ld.Op != token.MUL {
+		return nil, false, false
+	}
+	g, isG := ld.X.(*ssa.Global)
+	if !isG {
+		return nil, false, false
+	}
+	m := globalTVal(g)
+	kv, okk := ev.eval(fr, lk.Index, depth+1)
+	if m == nil || m.Kind != "map" || !okk {
+		return nil, false, false
+	}
+	key := fmt.Sprint(kv)
+	e, has := m.M[key]
+	return e, has, true
 }
 
 // feasiblePaths returns the paths all of whose branch conditions evaluate to their polarity.
